@@ -49,8 +49,8 @@ CHECKS["C13"] = dict(
     cases=dict(quick=400000, thorough=2500000),
     fuzz=dict(runs=4000000, maxlen=600),
     rule="Case = grid variant {Grid, GridN, GridB, GridB<less,greater>} x dimension 1..5 x optional bounds (low<up) x optional interior-"
-         "neighbour limit x history (<=60 ops) of createCell+add (never a duplicate coordinate) / remove+destroyCell / update / updateAll / "
-         "clear / create+remove of a never-added cell; coordinates from a small box (neighbours common), around the bounds, and +-2^30. "
+         "neighbour limit x history (<=60 ops) of createCell+add (never a duplicate coordinate) / add a block of up to 6x6 cells / remove+destroyCell / "
+         "update / updateAll after changing up to 5 keys or every key / clear / create+remove of a never-added cell; coordinates from a small box (neighbours common), around the bounds, and +-2^30. "
          "Oracle = coordinate->cell map: lookups of present cells and absent neighbours, neighbour sets (exactly the present cells at L1 "
          "distance 1, symmetric), GridN/GridB neighbour counts and border flags, GridB queue counts and tops (only when the queue is "
          "non-empty), components() vs flood fill. Non-trivial = (GridN/GridB) a removal flipped at least one neighbour from interior to "
@@ -96,7 +96,8 @@ CHECKS["C18"] = dict(
     rule="Case = one of: (52%) combinator tree (1..5 leaves from {predicate with generated bit trace, always, never, iteration(n)}, joined by "
          "or/and in generated shape) driven by <=30 steps of eval(root via eval() or operator()) / eval(any node) / terminate(any node), "
          "compared with a reference interpreter on value AND per-predicate invocation counts (short-circuit, sticky terminate, shared state "
-         "of copies); (13%) iteration(n) through eval() or the converted condition, with reset(); (22%) cost-convergence: window 1..8, "
+         "of copies); (13%) iteration(n) through eval() or the converted condition, with reset(), n <= 40 and (a quarter of these cases) n from {UINT_MAX, UINT_MAX-1, "
+         "2^31, 2^31-1, 65536, 65535, 1000} evaluated up to 200 times; (22%) cost-convergence: window 1..8, "
          "eps log-uniform 1e-3..1 or default, generated cost sequences fed through the pdef's intermediate-solution callback, fired index "
          "compared with the harness's re-implementation of the documented moving-average rule (rounding-borderline cases unjudged, counted); "
          "(13%) exact-solution condition under add-exact / add-approximate / clear sequences; (<1%, they cost real time) timed and periodic "
@@ -206,7 +207,8 @@ CHECKS["C09"] = dict(
     cases=dict(quick=40000, thorough=600000),
     fuzz=dict(runs=300000, maxlen=900),
     rule="Case = one of: (42%) state laws on a generated space (as C06 + unbounded time): copyState, cloneState, ScopedState copy/assign/==, "
-         "serialize->deserialize, copyToReals->copyFromReals must give equalStates and a bit-identical serialized image; (17%) copyStateData between two "
+         "serialize->deserialize, copyToReals->copyFromReals must give equalStates and a bit-identical serialized image (compounds whose leaf count is 2 mod 3 "
+         "get a real-vector component grown by one dimension *after* composition - top-down assembly - before setup); (17%) copyStateData between two "
          "compounds built from a shared pool of 2..6 named subspaces (random subsets, optional inner compound): exactly the common subspaces are "
          "transferred, the rest is bit-identical to before, return code NO/SOME/ALL matches; (17%) StateStorage: 0..12 states, round trip, EVERY "
          "truncation offset 0..len-1 (must be reported, may keep only a correct prefix), foreign space signature, occasionally a user-style subspace of "
@@ -284,20 +286,23 @@ CHECKS["C03"] = dict(
 CHECKS["C03"]["rule"] = (
     "Case = planner (47 registry entries) x space {R^2, R^3, SE2} x 0..3 obstacles x two queries in opposite corners (>= 10 r apart) x GoalState / "
     "GoalStates x threshold x seed x history of 1..7 steps from {solve(k) with k in 0..3 / 0..40 / log-uniform 1..2500 (scaled per planner), clear(), "
-    "clearQuery(), setProblemDefinition(other query) followed by clear() or clearQuery(), getPlannerData(), pdef->clearSolutionPaths()}. Oracle after "
+    "clearQuery(), setProblemDefinition(other query) followed by clear() or clearQuery(), getPlannerData(), pdef->clearSolutionPaths()}; a quarter of the "
+    "resumed solves are preceded by pdef->clearSolutionPaths(); 37% of the histories end with an epilogue: a solve with a budget from the top of the range "
+    "(usually up to a solution) and a short continued solve; FMT / BFMT draw batches of 60..300 samples so that they get past sampling. Oracle after "
     "every solve: returned within the per-planner bound of further evaluations, status <-> pdef coherence (full on a first solve, weaker on a resume), "
     "truthful INVALID_* statuses, no empty / 1-state / half-built solution, C01 path oracle, no start/goal state of the other query in the path (or in "
     "the planner data right after clear()), resumed solves never lose an exact solution nor worsen the best one; ASan + LeakSanitizer at child exit. "
     "Non-trivial = a solve interrupted after >= 1 evaluation and before an exact solution, followed by a resume, a clear or a query switch. "
-    "Companion C03C (the C02 harness, 8 control planners): solve(k) [-> solve again | clear + solve]* with the C02 replay oracle after every solve "
-    "and LeakSanitizer at child exit.")
+    "Companion C03C (the C02 harness, 8 control planners): solve(k) [-> solve again | clear + solve]* [=> solve with the whole budget -> short continued "
+    "solve] with the C02 replay oracle after every solve and LeakSanitizer at child exit.")
 
 CHECKS["C04"] = dict(
     src="harness/C04_costs.cpp",
     cases=dict(quick=2000, thorough=60000),
     rule="Case = (53%) part A: optimizing planner (22 registry entries) x problem (normal scenarios of C01) x objective {path length, state-cost "
          "integral over a generated smooth field, mechanical work, max-min clearance, weighted length+integral} x cost threshold {never satisfied, "
-         "always satisfied, generated finite} x 1..4 continued solves with evaluation budgets 50..3000: every entry of getSolutions() is re-costed "
+         "always satisfied, generated finite} x 1..4 continued solves with evaluation budgets 50..3000 (a quarter of the continued solves preceded by pdef->clearSolutionPaths(); 31% of the cases "
+         "end with: long solve, clearSolutionPaths, short solve - what the planner reports afterwards must not be worse than before): every entry of getSolutions() is re-costed "
          "with the harness's own objective instance (stored cost never better than true, equal for planners without deferred propagation, path length "
          ">= straight-line bound, optimized flag <=> isSatisfied(stored cost) for exact solutions, best exact cost never worsens, list sorted); "
          "(47%) part B: multiset of 1..9 PlannerSolutions with generated (approximate, difference, optimized, cost incl. ties and infinity) under one "
@@ -318,12 +323,14 @@ CHECKS["C17"] = dict(
     cases=dict(quick=150000, thorough=3000000),
     rule="Case = environment and space (normal scenarios of C01: R^n, SE2, SE3, weighted compound; 0..6 obstacles) x valid input path built by "
          "the harness {random valid polyline 1..13 states; detour hugging a ball or box obstacle at margin 0.05..0.4 (45%); tiny 1-2 state path; "
-         "polyline with repeated states / 1e-9 segments}, optionally ending at the goal x objective {length, state-cost integral, max-min clearance} "
+         "polyline with repeated states / 1e-9 segments; (a sixth of the cases) serpentine corridor: 3..7 thin walls reaching alternately from the bottom and the top, "
+         "the path walks through the gaps close to the wall tips with up to 8 vertices per leg}, optionally ending at the goal x objective {length, state-cost integral, max-min clearance} "
          "x routine {reduceVertices, partialShortcutPath, ropeShortcutPath, collapseCloseVertices, smoothBSpline, perturbPath, findBetterGoal, "
          "simplify (counting termination condition), simplifyMax, interpolate(), interpolate(count 0..60), subdivide, PathHybridization} x generated "
          "parameters. Every input segment passes the harness's own motion check at the space resolution and at r/4. Oracle: first state bit-identical; "
          "last state bit-identical or (goal-aware routines) another goal state; output obeys the dense <= 2r validity oracle; shortcutting routines "
-         "never lengthen the path in a metric space, cost-aware routines never worsen their objective; simplify==true implies path.check(); "
+         "never lengthen the path in a metric space, cost-aware routines never worsen their objective; simplify==true implies path.check() - also for "
+         "16 consecutive firing indices of the termination condition swept on copies of the same input (an interruption between a modification and the re-check); "
          "densification keeps all original vertices in order, the exact requested count, and the length; a hybridized path is not worse than the best "
          "recorded input. Non-trivial = the routine changed the path, or the input had repeated states. Distinct = consumed byte prefix.",
     technique="property-based testing of path post-processing with harness-built valid inputs (detour-heavy) and an independent validity / cost oracle",
@@ -407,7 +414,10 @@ CHECKS["C15"] = dict(
          "radius^n must be uniform (KS D < 0.03) with the axis coordinate balanced (< 7.5 sigma); (60%) sampler level: {PathLengthDirect, Rejection} x "
          "{R^2..R^8, SE2, SE3} x 1-2 starts x 1-3 goals (optionally near a bound; in 16% the first goal 3e-9..1e-2 from the first start) x cost {just above d, 1.01..2 d, 2..11 d, far beyond the bounds} x "
          "optional lower bound: every successful sample is in bounds, has heuristicSolnCost < c (and >= the lower bound), the heuristic equals the "
-         "recomputed focal-distance sum, and getInformedMeasure equals the analytic sum of volumes (x rotation measure) capped by the space measure. "
+         "recomputed focal-distance sum, and getInformedMeasure equals the analytic sum of volumes (x rotation measure) capped by the space measure; "
+         "in half of these cases the *same sampler object* is then asked for a second bound (smaller, or 1.3..3 times larger): samples obey it at once, and after a "
+         "larger bound the states between the two bounds must be drawn again - asserted when >= half of the larger region (3000 uniformly drawn states) lies "
+         "between the bounds and >= 40 of 64 samples succeeded (a correct sampler fails this with probability < 1e-12), also through the two-bound form. "
          "Non-trivial = thin spheroid (c < 2 d), region near a bound, >= 2 spheroids, or a uniformity test. Distinct = consumed byte prefix.",
     technique="property-based testing with analytic oracles (focal sum, Gamma-function volume) and a seeded Kolmogorov-Smirnov uniformity test",
     level_text="Membership, bounds, surface law and measure are checked exactly on generated configurations; the 'uniformly distributed / "
